@@ -285,6 +285,17 @@ def build(cfg, world, shared=None):
         universe = shared['universe']          # the same universe object serves several sessions
     elif u['kind'] == 'static':
         universe = StaticUniverse(list(u['assets']))
+    elif u.get('user_class'):
+        from qstrader.asset.universe.universe import Universe
+
+        class ListingTableUniverse(Universe):
+            """A user-defined growing universe (an index-additions table), not derived from DynamicUniverse."""
+            def __init__(self, table):
+                self.table = table
+
+            def get_assets(self, dt):
+                return [a_ for a_, d_ in self.table.items() if d_ is not None and dt >= d_]
+        universe = ListingTableUniverse({a: (ts(d) if d else None) for a, d in u['dates'].items()})
     else:
         universe = DynamicUniverse({a: (ts(d) if d else None) for a, d in u['dates'].items()})
     if shared is not None and shared.get('share_universe'):
@@ -1049,6 +1060,8 @@ def gen_cfg(rng, alpha_kinds=('fixed',), universe_kinds=('static',), max_days=25
             for a in assets[1:]:
                 dates[a] = same
         cfg['universe'] = {'kind': 'dynamic', 'dates': dates}
+        if rng.random() < 0.25:
+            cfg['universe']['user_class'] = True        # the same membership rule in a user-defined Universe subclass
     if not full_data and rng.random() < 0.5:
         late_sym = rng.choice(syms)
         ld = d0 + dt.timedelta(days=rng.randint(3, max(4, ndays // 2)))
